@@ -34,7 +34,8 @@ RULE = ('mibdump: Hypothesis draws an on-disk world (1-3 generated modules impor
         'file/module name mismatch, or a write-suppressing option. mibcopy: 2-4 source files in 1-2 directories, each '
         'module in 1-3 copies with distinct / equal / absent REVISIONs, optional pre-existing destination copy, '
         'visited in every permutation of the file arguments (<= 4 files: all orders) and as directories; '
-        'non-trivial = >= 2 copies of a name and >= 2 orders. Distinct = hash of world + argv.')
+        'non-trivial = >= 2 copies of a name and >= 2 orders. Distinct = hash of world + argv. Copies without any '
+        'MODULE-IDENTITY and destination paths taken by a directory are drawn too.')
 ASSUMPTIONS = [
     'every run passes explicit local --mib-source / --mib-borrower values (the defaults point at the network)',
     'latest revision of a copy = its first REVISION clause (newest first, as SMIv2 requires); no REVISION = epoch',
